@@ -10,11 +10,22 @@ WT=/tmp/wt/confirm
 cd "$WT" && git checkout -q --detach "$BASE" && git checkout -- . && git clean -fdq -e target
 PKG=$(grep -m1 '^name' "$CRATE/Cargo.toml" | sed 's/.*"\(.*\)".*/\1/')
 git apply "$DIR/patch.diff" || { echo "{\"seed\":\"$NAME\",\"error\":\"patch does not apply\"}" >> /tmp/wt/confirm.log; exit 1; }
+# DEMO_FEATURES (env): cargo features the demo needs (the suite is then run without the demo file and the
+# two results are added, because the demo refuses to compile without the feature)
+FEAT=${DEMO_FEATURES:+--features $DEMO_FEATURES}
+if [ -n "${DEMO_FEATURES:-}" ]; then
+  SUITE0=$(cargo test --workspace --no-fail-fast --offline 2>&1 | grep -E "^test result" | awk '{p+=$4; f+=$6} END {print p" "f}')
+fi
 mkdir -p "$CRATE/tests"; cp "$DIR/demo.rs" "$CRATE/tests/verif_demo.rs"
-SUITE=$(cargo test --workspace --no-fail-fast --offline 2>&1 | grep -E "^test result" | awk '{p+=$4; f+=$6} END {print p" "f}')
-DEMO_WITH=$(cargo test --offline -p "$PKG" --test verif_demo 2>&1 | grep -E "^test result" | awk '{p+=$4; f+=$6} END {print p" "f}')
+if [ -z "${DEMO_FEATURES:-}" ]; then
+  SUITE=$(cargo test --workspace --no-fail-fast --offline 2>&1 | grep -E "^test result" | awk '{p+=$4; f+=$6} END {print p" "f}')
+fi
+DEMO_WITH=$(cargo test --offline -p "$PKG" $FEAT --test verif_demo 2>&1 | grep -E "^test result" | awk '{p+=$4; f+=$6} END {print p" "f}')
+if [ -n "${DEMO_FEATURES:-}" ]; then
+  SUITE=$(echo "$SUITE0 $DEMO_WITH" | awk '{print $1+$3" "$2+$4}')
+fi
 git apply -R "$DIR/patch.diff"
-DEMO_WITHOUT=$(cargo test --offline -p "$PKG" --test verif_demo 2>&1 | grep -E "^test result" | awk '{p+=$4; f+=$6} END {print p" "f}')
+DEMO_WITHOUT=$(cargo test --offline -p "$PKG" $FEAT --test verif_demo 2>&1 | grep -E "^test result" | awk '{p+=$4; f+=$6} END {print p" "f}')
 rm -f "$CRATE/tests/verif_demo.rs"; rmdir "$CRATE/tests" 2>/dev/null
 git checkout -- . ; git clean -fdq -e target
 echo "{\"seed\":\"$NAME\",\"base\":\"$BASE\",\"suite_plus_demo_with_change_pass_fail\":\"$SUITE\",\"demo_with_change_pass_fail\":\"$DEMO_WITH\",\"demo_without_change_pass_fail\":\"$DEMO_WITHOUT\"}" >> /tmp/wt/confirm.log
